@@ -1063,10 +1063,13 @@ class mulgrid(object):
         if isinstance(oldcolname, str) and isinstance(newcolname, str):
             oldcolname, newcolname = [oldcolname], [newcolname]
         try:
-            for olditem, newitem in zip(oldcolname, newcolname):
-                i = self.columnlist.index(self.column[olditem])
-                self.columnlist[i].name = newitem
-                self.column[newitem] = self.column.pop(olditem)
+            # (two passes, so that names may be swapped or cycled:)
+            cols = [self.columnlist[self.columnlist.index(self.column[olditem])]
+                    for olditem in oldcolname]
+            for olditem in oldcolname: self.column.pop(olditem, None)
+            for col, newitem in zip(cols, newcolname):
+                col.name = newitem
+                self.column[newitem] = col
             # connections are keyed by column names:
             self.connection = dict([(tuple([col.name for col in con.column]), con)
                                     for con in self.connectionlist])
@@ -1099,10 +1102,13 @@ class mulgrid(object):
         if isinstance(oldlayername, str) and isinstance(newlayername, str):
             oldlayername, newlayername = [oldlayername], [newlayername]
         try:
-            for olditem, newitem in zip(oldlayername, newlayername):
-                i = self.layerlist.index(self.layer[olditem])
-                self.layerlist[i].name = newitem
-                self.layer[newitem] = self.layer.pop(olditem)
+            # (two passes, so that names may be swapped or cycled:)
+            lays = [self.layerlist[self.layerlist.index(self.layer[olditem])]
+                    for olditem in oldlayername]
+            for olditem in oldlayername: self.layer.pop(olditem, None)
+            for lay, newitem in zip(lays, newlayername):
+                lay.name = newitem
+                self.layer[newitem] = lay
             self.setup_block_name_index()
             self.setup_block_connection_name_index()
             return True
